@@ -124,6 +124,10 @@ func zzPayload(id, size int) []byte {
 // their buffers right after each call; pooled buffers are havocked on Put).
 func ZZ_C01_Writers(q, until, nw, ww, wwOther, entries, sizes, scribble int) {
 	tr := newZZTransport()
+	// until: 0 non-blocking queue, 1 blocking queue, 2/3 the same with scheduling points inside the transport's
+	// Write/Writev/Flush (a transport call is a system call, not an atomic step)
+	tr.yield = until >= 2
+	until %= 2
 	pl := NewPipeline()
 	ch := zzNewChannel(pl, tr, q, until != 0)
 	g := &zzGhost{n: ww + (nw-1)*wwOther, content: "c01"}
